@@ -21,7 +21,7 @@ RULE = ("schemas with required fields (with and without defaults), schema-level 
         "are own required fields / schema validators of a disabled sub-configuration; inserted list items with a "
         "missing required field must be rejected; non-trivial = >= 1 returning call judged plus >= 1 further call (returning or raising); distinct = "
         "distinct (schema, calls)")
-REQUIRED = ("calls_returned_judged", "calls_raised", "required_walks", "validator_log_checks", "collect_mode_compared",
+REQUIRED = ("reinsertions_of_invalidated_members", "calls_returned_judged", "calls_raised", "required_walks", "validator_log_checks", "collect_mode_compared",
             "exemption_cases_judged", "list_item_insertions_judged", "call:load_tree", "call:loads", "call:load", "call:validate",
             "flags_off_seen", "failing_validators_seen")
 ASSUMPTIONS = ["one-directional: nothing is demanded of calls that raise, except the exemption of disabled sub-configurations",
@@ -82,7 +82,8 @@ def generate(rng, ctx):
                 p, nd = rng.choice(lists)
                 call["path"] = p
                 call["item"] = gen.tree_for(rng, nd["item"], env, valid=True, partial=rng.choice([0.0, 0.5, 0.9]))
-                call["how"] = rng.choice(["append", "insert", "setitem"])
+                call["how"] = rng.choice(["append", "insert", "setitem", "reinsert", "reinsert"])
+                call["via"] = rng.choice(["setitem", "append", "insert", "slice"])
         calls.append(call)
     return {"schema": schema, "calls": calls}
 
@@ -337,6 +338,8 @@ def _insert(drv, res, call, idx):
         except Exception:
             return
     nd = drv.node(call["path"])
+    if call["how"] == "reinsert":
+        return _reinsert(drv, res, call, idx, lst, nd)
     item = copy.deepcopy(call["item"])
     ok, norm = model.accepts_tree(nd["item"], call["item"], drv.env)
     if ok is None:
@@ -359,3 +362,53 @@ def _insert(drv, res, call, idx):
         if unmet:
             res.viol("M-required" if unmet[0][0] == "required" else "M-validators", "insert:" + unmet[0][0],
                      "call %d: %s of %r into %s was accepted but %s" % (idx, call["how"], call["item"], call["path"], unmet[0][2]))
+
+
+def _reinsert(drv, res, call, idx, lst, nd):
+    """A member of the list is made invalid in place (a required field reset to its unset default) and then put back
+    into the same list: inserting is held to the same rule as loading."""
+    cc = drv.cc
+    if not len(lst):
+        try:
+            lst.append(copy.deepcopy(call["item"]))
+        except Exception:
+            return
+    member = lst[0]
+    req = [ch for ch in model.stored_children(nd["item"]) if ch["kind"] == "field" and ch.get("params", {}).get("required")
+           and ch["params"].get("default") is None and ch["family"] not in ("flag",)]
+    if not req or not model.is_enabled(nd["item"], plain(member)):
+        return
+    try:
+        cc.reset_value(member, req[0]["key"])
+    except Exception:
+        return
+    unmet, dis = [], []
+    walk_unmet(nd["item"], plain(member), call["path"] + "[]", unmet, dis)
+    if not unmet:
+        return
+    try:
+        via = call.get("via", "setitem")
+        if via == "setitem":
+            lst[0] = member
+        elif via == "append":
+            lst.append(member)
+        elif via == "insert":
+            lst.insert(0, member)
+        else:
+            lst[0:1] = [member]
+        err = None
+    except Exception as exc:
+        err = exc
+    res.count("list_item_insertions_judged")
+    res.count("reinsertions_of_invalidated_members")
+    # the member was invalidated by this harness step: take it out again so that later calls see a state the
+    # library itself could have validated
+    try:
+        while any(m is member for m in lst):
+            del lst[[i for i, m in enumerate(lst) if m is member][0]]
+    except Exception:
+        pass
+    if err is None:
+        res.viol("M-required" if unmet[0][0] == "required" else "M-validators", "reinsert:" + unmet[0][0],
+                 "call %d: a member of %s made invalid in place was put back with %s and accepted although %s" % (
+                     idx, call["path"], via, unmet[0][2]))
